@@ -79,8 +79,46 @@ pub fn exec(f: u32, a: &Args) -> Args {
     }
 }
 
+/// the mathematical value of the prefix integer starting at b[0] (prefix width n), None if truncated
+fn math_int(b: &[u64], n: u32) -> Option<u128> {
+    let mask = (1u128 << n) - 1;
+    let mut v = (*b.first()? as u128) & mask;
+    if v < mask {
+        return Some(v);
+    }
+    let mut power = 0u32;
+    for x in &b[1..] {
+        if power > 110 {
+            return Some(u128::MAX);
+        }
+        v = v.saturating_add(((*x as u128) & 0x7f) << power);
+        power += 7;
+        if x & 0x80 == 0 {
+            return Some(v);
+        }
+    }
+    None
+}
+
 pub fn oracle(f: u32, a: &Args, out: &Args) -> Option<(&'static str, String)> {
     match f {
+        501 => {
+            // C11: a numeric field too large to represent is an error, never a silently wrong value.
+            // Section prefix 00 00, then an indexed static field line: its index, computed here with
+            // 128-bit arithmetic, must either fit 64 bits or be refused.
+            let b = &a[0];
+            if b.len() >= 3 && b[0] == 0 && b[1] == 0 && b[2] >> 6 == 3 {
+                if let Some(v) = math_int(&b[2..], 6) {
+                    if v > u64::MAX as u128 && out[0][0] == 1 {
+                        return Some(("C11", format!("QPACK index {} does not fit 64 bits but the section decoded to {} fields", v, out[0][1])));
+                    }
+                    if v >= 99 && v <= u64::MAX as u128 && out[0][0] == 1 {
+                        return Some(("C11", format!("QPACK static index {} is out of the table but the section decoded", v)));
+                    }
+                }
+            }
+            None
+        }
         503 => {
             // C14/C02: the header map survives encode -> decode (when within the parse limit the frame layer imposes)
             let mut pairs = pairs_of(a);
